@@ -158,6 +158,7 @@ type queryJob struct {
 	script string
 	hash   string
 	lite   string
+	ext    string
 }
 
 var nameSan = regexp.MustCompile(`[^A-Za-z0-9_.#:@-]+`)
@@ -191,7 +192,7 @@ func (e *Engine) Discharge(obls []*Obligation, outDir string, timeout time.Durat
 			if o.Goal.IsTrue() && o.Expect != "sat" {
 				continue
 			}
-			build := func(hyps []*smt.Term) *smt.Script {
+			build := func(hyps []*smt.Term, goal *smt.Term) *smt.Script {
 				sc := &smt.Script{Logic: "ALL", DefFuns: defFuns}
 				sc.Asserts = append(sc.Asserts, hyps...)
 				// only axioms about symbols that occur in this obligation
@@ -201,7 +202,7 @@ func (e *Engine) Discharge(obls []*Obligation, outDir string, timeout time.Durat
 						used[k] = true
 					}
 				}
-				for k := range AxiomSymbols(o.Goal) {
+				for k := range AxiomSymbols(goal) {
 					used[k] = true
 				}
 				for _, ax := range axioms {
@@ -217,19 +218,19 @@ func (e *Engine) Discharge(obls []*Obligation, outDir string, timeout time.Durat
 					}
 					// The generator does the quantifier work where it can: an axiom whose pattern is f(x1..xn) over
 					// exactly its bound variables is replaced by its instances at the ground f-terms of the query.
-					if insts, ok := groundInstances(ax, append(append([]*smt.Term{}, hyps...), o.Goal)); ok {
+					if insts, ok := groundInstances(ax, append(append([]*smt.Term{}, hyps...), goal)); ok {
 						sc.Axioms = append(sc.Axioms, insts...)
 					} else {
 						sc.Axioms = append(sc.Axioms, ax)
 					}
 				}
-				g := o.Goal
+				g := goal
 				if o.Expect == "sat" {
-					sc.Asserts = append(sc.Asserts, o.Goal)
+					sc.Asserts = append(sc.Asserts, goal)
 				} else {
 					// a universally quantified goal is proved for fresh constants (skolemised by the generator, so
 					// that the instantiation below sees the goal's index terms as ground terms)
-					g = skolemize(o.Goal)
+					g = skolemize(goal)
 					sc.Asserts = append(sc.Asserts, smt.Not(g))
 				}
 				// generator-side instantiation of quantified hypotheses at the ground terms of the query (the
@@ -240,7 +241,7 @@ func (e *Engine) Discharge(obls []*Obligation, outDir string, timeout time.Durat
 				}
 				return sc
 			}
-			sc := build(o.Hyps)
+			sc := build(o.Hyps, o.Goal)
 			// a smaller query without the allocation facts is tried first: unsat from fewer hypotheses is still unsat
 			var lite []*smt.Term
 			if o.Expect != "sat" && !mentionsAlloc(o.Goal) {
@@ -252,7 +253,15 @@ func (e *Engine) Discharge(obls []*Obligation, outDir string, timeout time.Durat
 			}
 			liteText := ""
 			if len(lite) > 0 && len(lite) < len(o.Hyps) {
-				liteText = build(lite).Render()
+				liteText = build(lite, o.Goal).Render()
+			}
+			// sequence equalities in the goal restated element-wise (extensionality): tried when the direct query
+			// is not decided
+			extText := ""
+			if o.Expect != "sat" {
+				if eg, ok := extGoal(o.Goal); ok {
+					extText = build(o.Hyps, eg).Render()
+				}
 			}
 			text := sc.Render()
 			h := fmt.Sprintf("%x", sha256.Sum256([]byte(text)))[:16]
@@ -268,6 +277,9 @@ func (e *Engine) Discharge(obls []*Obligation, outDir string, timeout time.Durat
 			j := &queryJob{obl: o, file: file, script: "; obligation " + name + "\n; " + o.Src + "\n" + text, hash: h}
 			if liteText != "" {
 				j.lite = "; obligation " + name + " (without allocation facts)\n" + liteText
+			}
+			if extText != "" {
+				j.ext = "; obligation " + name + " (sequence equalities element-wise)\n" + extText
 			}
 			cache[h] = j
 			jobOf[o] = j
@@ -311,6 +323,27 @@ func (e *Engine) Discharge(obls []*Obligation, outDir string, timeout time.Durat
 			if j.obl.Expect == "sat" && qt > 4*time.Second {
 				qt = 4 * time.Second // vacuity guards: a quick satisfiability probe is enough
 			}
+			if j.ext != "" && !all && qt > 6*time.Second {
+				// an element-wise variant exists: give the direct query a short first try, then the variant
+				if r0, _ := Race(j.file, 5*time.Second, DefaultSolvers, false); r0.Status == "unsat" || r0.Status == "sat" {
+					r0.File = j.file
+					mu.Lock()
+					results[j] = r0
+					mu.Unlock()
+					return
+				}
+				ef := strings.TrimSuffix(j.file, ".smt2") + ".ext.smt2"
+				if err := os.WriteFile(ef, []byte(j.ext), 0o644); err == nil {
+					if er, _ := Race(ef, timeout, DefaultSolvers, false); er.Status == "unsat" {
+						er.File = ef
+						er.Backend += "(ext)"
+						mu.Lock()
+						results[j] = er
+						mu.Unlock()
+						return
+					}
+				}
+			}
 			r, allr := Race(j.file, qt, DefaultSolvers, all && j.obl.Expect != "sat")
 			if all {
 				// cross-solver contradiction check
@@ -328,6 +361,17 @@ func (e *Engine) Discharge(obls []*Obligation, outDir string, timeout time.Durat
 				}
 			}
 			r.File = j.file
+			if r.Status != "unsat" && r.Status != "sat" && j.ext != "" {
+				ef := strings.TrimSuffix(j.file, ".smt2") + ".ext.smt2"
+				if err := os.WriteFile(ef, []byte(j.ext), 0o644); err == nil {
+					if er, _ := Race(ef, timeout, DefaultSolvers, false); er.Status == "unsat" {
+						er.File = ef
+						er.Backend += "(ext)"
+						er.Secs += r.Secs
+						r = er
+					}
+				}
+			}
 			mu.Lock()
 			results[j] = r
 			mu.Unlock()
@@ -591,6 +635,30 @@ func instantiateHyps(hyps []*smt.Term, goal *smt.Term) []*smt.Term {
 	for _, t := range all {
 		walkG(t)
 	}
+	// offsets of the slices taken in this query
+	var offsets []*smt.Term
+	offSeen := map[int]bool{}
+	seen = map[int]bool{}
+	var walkO func(t *smt.Term)
+	walkO = func(t *smt.Term) {
+		if seen[t.ID()] {
+			return
+		}
+		seen[t.ID()] = true
+		for _, a := range t.Args {
+			walkO(a)
+		}
+		if t.Op == "seq.extract" && len(t.Args) == 3 && !mentions(t.Args[1], bound) {
+			o := t.Args[1]
+			if !(o.IsInt() && o.Int.Sign() == 0) && !offSeen[o.ID()] && len(offsets) < 4 {
+				offSeen[o.ID()] = true
+				offsets = append(offsets, o)
+			}
+		}
+	}
+	for _, t := range all {
+		walkO(t)
+	}
 	var out []*smt.Term
 	added := map[int]bool{}
 	for _, fa := range foralls {
@@ -667,6 +735,22 @@ func instantiateHyps(hyps []*smt.Term, goal *smt.Term) []*smt.Term {
 					out = append(out, inst)
 					n++
 				}
+				// the element at index g of a slice s[off:] is the element at off+g of s
+				if tr.Op == "seq.nth" && len(tr.Args) == 2 && qs[tr.Args[1]] && tr.Args[0] != g.Args[0] {
+					for _, off := range offsets {
+						m2 := map[*smt.Term]*smt.Term{}
+						for k, v := range m {
+							m2[k] = v
+						}
+						m2[tr.Args[1]] = smt.Add(g.Args[1], off)
+						inst2 := smt.Subst(fa.Args[0], m2)
+						if !added[inst2.ID()] && !inst2.IsTrue() {
+							added[inst2.ID()] = true
+							out = append(out, inst2)
+							n++
+						}
+					}
+				}
 				if n > 40 {
 					break
 				}
@@ -696,6 +780,45 @@ func skolemize(t *smt.Term) *smt.Term {
 		return smt.And(as...)
 	}
 	return t
+}
+
+// extGoal restates sequence equalities in positive position of a goal by extensionality:
+// A = B  becomes  len A = len B and forall i in range: A[i] = B[i].
+func extGoal(t *smt.Term) (*smt.Term, bool) {
+	switch t.Op {
+	case "forall":
+		b, ok := extGoal(t.Args[0])
+		if !ok {
+			return t, false
+		}
+		return smt.Forall(t.Quant, b), true
+	case "=>":
+		b, ok := extGoal(t.Args[1])
+		if !ok {
+			return t, false
+		}
+		return smt.Implies(t.Args[0], b), true
+	case "and":
+		any := false
+		var as []*smt.Term
+		for _, a := range t.Args {
+			b, ok := extGoal(a)
+			any = any || ok
+			as = append(as, b)
+		}
+		if !any {
+			return t, false
+		}
+		return smt.And(as...), true
+	case "=":
+		if len(t.Args) == 2 && t.Args[0].Sort.Kind == smt.KSeq {
+			a, b := t.Args[0], t.Args[1]
+			i := smt.Fresh("ext$i", smt.Int)
+			body := smt.Implies(smt.And(smt.Le(smt.IntC(0), i), smt.Lt(i, smt.SeqLen(a))), smt.Eq(smt.SeqNth(a, i), smt.SeqNth(b, i)))
+			return smt.And(smt.Eq(smt.SeqLen(a), smt.SeqLen(b)), smt.Forall([]*smt.Term{i}, body)), true
+		}
+	}
+	return t, false
 }
 
 func mentionsAlloc(t *smt.Term) bool {
